@@ -805,7 +805,8 @@ class Frame2D(CoordinateFrame):
 
     def coordinates(self, *args):
         args = [args[i] for i in self.axes_order]
-        coo = tuple([arg * un for arg, un in zip(args, self.unit)])
+        # a quantity is converted to the frame's unit, a plain number gets it
+        coo = tuple([arg * un if not hasattr(arg, "to") else arg.to(un) for arg, un in zip(args, self.unit)])
         return coo
 
     def coordinate_to_quantity(self, *coords):
